@@ -326,6 +326,21 @@ pub fn run(ctx: &Ctx) {
     });
   }
   ctx.subspace(&format!("(b) every hour (hh:20:34) of every date of the year windows {:?}: eight characters = year, month, day(+1 at 23h), hour pillars", w), done, nb);
+  // (b'') the whole range on a stride: every hour of every 577th (quick) / 7th (thorough) civil date of 0001-02-10..9998-12-31
+  {
+    let stride = if ctx.quick() { 577 } else { 7 };
+    let lo = civ.ord(1, 2, 10).unwrap();
+    let hi = civ.ord(9998, 12, 31).unwrap();
+    let cnt = (hi - lo) / stride;
+    let done = par_chunks(ctx, 0, cnt, 64, |x, y, l| {
+      for k in x..y {
+        for h in 0..24i64 {
+          check_hour(ctx, &civ, &tm, (lo + stride * k) as i64 * 86400 + h * 3600 + 1234, l);
+        }
+      }
+    });
+    ctx.subspace(&format!("(b'') every hour (hh:20:34) of every {}th civil date of 0001-02-10..9998-12-31 ({} dates)", stride, cnt), done, cnt as u64 * 24);
+  }
   // (b') the instants around every Jie of those years: composition must switch exactly at the Jie instant
   let mut jies: Vec<i64> = Vec::new();
   for &(ya, yb) in &w {
